@@ -6,7 +6,8 @@ open Sexp_ast
 
 let () =
   (* jsgen_traced <5|6> <fuel> (jsfile xName MSGS NODE...)
-       ->  ok <hex text> #<tree reads> #<own reads> #<own writes> #<shared writes> | err <hex> | ...
+       ->  ok <hex text> | err <hex> | crash <hex> | diverge - | fuel - | outofmodel -,
+           each followed by #<tree reads> #<own reads> #<own writes> #<shared writes> (the log of a failing run too)
      the text is that of the TRACED generator; the harness compares it with op jsgen and with soyjs.Write *)
   register "jsgen_traced" (fun a ->
     match a with
@@ -14,14 +15,15 @@ let () =
         (match Sexp.parse (String.concat " " rest) with
          | L (A "jsfile" :: name :: msgs :: body) ->
              let o = { o_fmt = (if int_field fmt = 6 then ES6 else ES5); o_msgs = Ops_jsgen.msgs_of msgs; o_order = (fun l -> List.rev l) } in
-             (match gen_file_traced o (nat_of_int (int_field fuel)) (xs (atom name)) (List.map node_of body) with
-              | (Ok cs, Some t) ->
-                  let ((r, ow), w) = jacc_count t in
-                  let sw = List.length (List.filter jacc_shared_write t) in
-                  ["ok"; hex_of_bstr (render_chunks is_print_tbl cs); "#" ^ string_of_int (int_of_nat r); "#" ^ string_of_int (int_of_nat ow);
-                   "#" ^ string_of_int (int_of_nat w); "#" ^ string_of_int sw]
-              | (Ok _, None) -> ["notrace"]
-              | (Err m, _) -> ["err"; hex_of_bstr m] | (Crash m, _) -> ["crash"; hex_of_bstr m]
-              | (Diverge, _) -> ["diverge"] | (OutOfFuel, _) -> ["fuel"] | (OutOfModel, _) -> ["outofmodel"])
+             (let (r, t) = gen_file_traced o (nat_of_int (int_field fuel)) (xs (atom name)) (List.map node_of body) in
+              let ((rd, ow), w) = jacc_count t in
+              let sw = List.length (List.filter jacc_shared_write t) in
+              let counts = ["#" ^ string_of_int (int_of_nat rd); "#" ^ string_of_int (int_of_nat ow);
+                            "#" ^ string_of_int (int_of_nat w); "#" ^ string_of_int sw] in
+              (* the log is there on every outcome: a failing generation keeps its state *)
+              match r with
+              | Ok cs -> ["ok"; hex_of_bstr (render_chunks is_print_tbl cs)] @ counts
+              | Err m -> ["err"; hex_of_bstr m] @ counts | Crash m -> ["crash"; hex_of_bstr m] @ counts
+              | Diverge -> ["diverge"; "-"] @ counts | OutOfFuel -> ["fuel"; "-"] @ counts | OutOfModel -> ["outofmodel"; "-"] @ counts)
          | _ -> failwith "jsgen_traced: bad file sexp")
     | _ -> failwith "jsgen_traced: arity")
